@@ -43,6 +43,42 @@ T = {
  'C19-B': ('C19', 'unknown variant case located at the whole constructor (Span == wildcard on dummy)', 'Type::UnknownCase { .. } or an implicit constructor on a variant type without Default'),
  'C20-A': ('C20', 'latest_tx_body only replaced when the compiled body has as many outputs as the template', 'reused compiler, target with a dropped optional output and min_utxo (pre-fix tree 8a4aba0; neutralised by fix 4c68aca, see notes)'),
  'C20-B': ('C20', 'resolve_tx evaluates compiler operators once before the refinement loop (rebased onto 4c68aca: before the reset)', 'a min_utxo template on an instance whose previous body has an output at that position'),
+ 'C01-C': ('C01', 'StructConstructor lowering fast path (no spread, all fields present) keeps the written field order', 'a constructor without spread listing its fields in another order than the type definition'),
+ 'C01-D': ('C01', 'reducer folds the known tail of a +/- chain while its head is unknown; (x + a) + b becomes x + (a - b)', 'head + a + b with an input (or input datum) as head and args / fees / literals as a, b, under staged evaluation (args, reduce, inputs, reduce)'),
+ 'C02-C': ('C02', 'the already-taken check of input selection is merged into the ref check: a ref-pinned query no longer consults the taken set', 'two inputs, one by address / min_amount and one pinned by ref to the UTxO the first one picks, the pinned one named after the other (value is created; C04 is the property that sees the double spend)'),
+ 'C02-D': ('C02', 'output_has_assets decides emptiness from lovelace alone: an optional output holding only native tokens is dropped', 'output? whose amount reduces to native assets with zero lovelace'),
+ 'C04-C': ('C04', 'resolve_tx keeps selections across fee passes and reserves kept sets lazily in name order', 'full resolve_tx loop, >= 2 passes: a fee-dependent many block named before a fee-independent block of the same party, send-all boundary so the real fee needs one more UTxO'),
+ 'C06-C': ('C06', 'Expression::params returns nothing below a compiler built-in', 'a parameter all of whose occurrences sit inside a compiler-op operand (time_to_slot(deadline))'),
+ 'C07-C': ('C07', 'is_constant of a Map checks the entry values only, not the keys', 'a map literal with a parameter key under a Property lookup, reduced while the key is pending'),
+ 'C07-D': ('C07', 'reduce_op only strips an applied-argument wrapper from operands instead of reducing them', 'a compiler op over arithmetic on an applied argument (time_to_slot(deadline + grace)), compiler pass straight after apply_args'),
+ 'C08-C': ('C08', 'inputs sorted by the textual order of txid#index (two cooperating sites)', '>= 2 spent UTxOs of one transaction id whose output indices order differently as decimal strings (2 and 10)'),
+ 'C08-D': ('C08', 'cancelled-out policies pruned from the mint field only after the witness set is built', 'mint and burn of one policy cancelling for every asset name plus a redeemer on a policy sorting after it'),
+ 'C09-C': ('C09', 'TypeDef::find_case_index compares case names ignoring ASCII case', 'a variant type with two cases differing only in letter case, constructing the later one'),
+ 'C09-D': ('C09', 'map entries sorted by key when encoded as Plutus Data', 'a datum / redeemer map whose keys are not in ascending order'),
+ 'C10-C': ('C10', 'process-wide cache of Plutus language views keyed by language only', 'two compilers with different cost models for one language compiling transactions with redeemers in one process'),
+}
+# seed -> (detected by the target check when first tried?, what was strengthened to detect it / remark)
+HISTORY = {
+ 'C01-A': (False, 'generator: burns that exactly cancel a mint block or one atom of it'),
+ 'C03-A': (False, 'C03 tight phase: threshold = exact total of <= 50 candidates among up to 80 others'),
+ 'C04-A': (False, 'C04: block names on both sides of "collateral", collateral in half of the cases'),
+ 'C07-A': (False, 'C07: partially constant asset atoms, arguments in two instalments'),
+ 'C08-A': (False, 'worlds: UTxOs of one transaction id, output indices across the 1/2/4-byte boundaries'),
+ 'C08-B': (False, 'generator: exact-cancel burns; a cancelled policy without redeemer next to a guarded one is judged'),
+ 'C10-A': (False, 'worlds: UTxOs of one transaction id inside one multi-UTxO block (cross-process byte comparison)'),
+ 'C10-B': (False, 'worlds: two signer expressions denoting one key hash'),
+ 'C11-A': (False, 'C11: typed nesting 50..100000 deep decoded on a 2 MiB thread + dev-profile stack probe'),
+ 'C11-B': (False, 'C11: field-by-field structural view (independent of Serialize), sibling UTxOs in random trees'),
+ 'C13-B': (False, 'C13: index-by-wrong-kind-name mutators inside constructors, constructor-biased targets'),
+ 'C14-A': (False, 'tirgen: constant near-miss operands for every built-in'),
+ 'C16-B': (False, 'C16: ill-formed values for declared parameters inside requests (args and env)'),
+ 'C18-B': (False, 'C18: Workspace facade histories (found a genuine defect too: fix e536ff5)'),
+ 'C20-A': (False, 'C20: dropped optional outputs, tight balances (found two genuine defects: fix 4c68aca, which also neutralises this seed: on the repaired tree it no longer breaks C20)'),
+ 'C02-C': (False, 'not a miss of the machinery: the double spend is C04\'s subject and C04 reports it (C02\'s conservation monitor assigns UTxOs, it does not select them)'),
+ 'C07-C': (False, 'C07 trees phase: typed evaluable IR expressions under six argument-feeding schedules'),
+ 'C07-D': (False, 'generator: compiler built-ins over arithmetic on a parameter'),
+ 'C09-C': (False, 'generator: case / field names that differ in letter case only'),
+ 'C10-C': (False, 'C10: another cost model in every case (salted), so process-wide state shows in the script-data hash'),
 }
 matrix = collections.defaultdict(dict)
 mp = os.path.join(ROOT, 'MATRIX.tsv')
@@ -63,6 +99,15 @@ for sid, (prop, what, needs) in T.items():
         'checked_with': 'tools/seeded_eval.sh <patch> quick <check> (applies the patch to the tree, runs the check, restores the tree); full cross table in seeded/MATRIX.tsv',
         'quick_checks_reporting_a_violation': caught,
         'target_check_detects': prop in caught if matrix.get(sid) else None,
+        'detected_when_first_tried': HISTORY.get(sid, (True, ''))[0],
+        'strengthening': HISTORY.get(sid, (True, 'none needed: the quick check of the target property reported it at once'))[1],
     }
     json.dump(meta, open(os.path.join(d, 'meta.json'), 'w'), indent=1)
 print('wrote', len(T))
+# table for DESIGN.md section 13
+rows = []
+for sid, (prop, what, needs) in sorted(T.items()):
+    first, how = HISTORY.get(sid, (True, ''))
+    others = sorted(k for k, v in matrix.get(sid, {}).items() if v[0] == 'rc=1' and k != prop)
+    rows.append(f"| {sid} | {what} | {needs} | {'yes' if first else 'no'} | {how or '-'} | {', '.join(others) or '-'} |")
+open(os.path.join(ROOT, 'TABLE.md'), 'w').write('| seed | change | needs | caught at once | strengthening | other quick checks that report it |\n|---|---|---|---|---|---|\n' + '\n'.join(rows) + '\n')
